@@ -8,7 +8,7 @@
        computed from the implementation's OWN decoded state (so a divergence is localised to the
        first state at which a public function answers differently). *)
 From Coq Require Import NArith List Bool.
-From Arimaa Require Import Types U64 GenMasks GenEnums GenZobrist Board Zobrist Engine Notation Display Trace Cells Rules.
+From Arimaa Require Import Types U64 GenMasks GenEnums GenZobrist Board Zobrist Engine Notation Display Trace Cells Rules Safety.
 Import ListNotations.
 Open Scope N_scope.
 
@@ -99,6 +99,9 @@ Definition mon_block (dbg reach inv nopanic : bool) (b : blk) : list (N * N) :=
   match dec_state sl with
   | None => [(0, 1)]
   | Some s =>
+    (* the no-panic guard of model/Safety.v is a function of the state alone: where it holds on an assembled state
+       that passed the executable invariant, a panic of a query is a failing input of C19 as well *)
+    let nopanic := nopanic || (inv && queries_safe s) in
     let m := observe dbg s in
     let gm t := match get t m with Some v => v | None => [] end in
     let c := cell (board s) in
